@@ -2,7 +2,8 @@ package main
 
 // C20 — the API client addresses the right resource, once.
 //
-// One case is a group of independent calls.  Every call drives one method of the REAL client
+// One case is a group of independent items; an item is a call, or a SEQUENCE of calls issued one after the other on
+// one client instance against one server (what a request carries must not depend on earlier requests).  Every call drives one method of the REAL client
 // (client.New(...), default HTTP client and transport) against its own fault-injecting httptest server and
 // reports a projection: the requests the server saw (method, raw request target, Authorization / ETag /
 // If-Match request headers, string leaves of a JSON request body), the number of client.Do round trips
@@ -22,7 +23,6 @@ import (
 	"strconv"
 	"strings"
 	"sync"
-	"sync/atomic"
 	"time"
 
 	"github.com/pulumi/esc/cmd/esc/cli/client"
@@ -155,7 +155,91 @@ func c20Body(op string, r c20Reply) string {
 	return ""
 }
 
-func c20Call(c map[string]any) (res map[string]any) {
+// c20Session is ONE client instance talking to ONE scripted server.  The operations of a sequence run on the same
+// session one after the other (a single call is a sequence of length one); the script, the request log and the
+// reply counter belong to the operation that is currently running.
+type c20Session struct {
+	srv  *httptest.Server
+	cl   client.Client
+	host string
+
+	mu     sync.Mutex
+	op     string
+	script []c20Reply
+	final  c20Reply
+	reqs   []c20Req
+	idx    int
+}
+
+func c20NewSession(token string) *c20Session {
+	ss := &c20Session{}
+	ss.srv = httptest.NewServer(http.HandlerFunc(func(w http.ResponseWriter, r *http.Request) {
+		body, _ := io.ReadAll(r.Body)
+		rq := c20Req{M: r.Method, T: c20hx(r.RequestURI), Auth: c20hx(r.Header.Get("Authorization")),
+			ETag: c20hx(r.Header.Get("ETag")), IfM: c20hx(r.Header.Get("If-Match")), BF: [][]string{}}
+		var v any
+		if json.Unmarshal(body, &v) == nil {
+			c20Flatten("", v, &rq.BF)
+			sort.Slice(rq.BF, func(a, b int) bool { return rq.BF[a][0] < rq.BF[b][0] })
+		}
+		ss.mu.Lock()
+		i := ss.idx
+		ss.idx++
+		ss.reqs = append(ss.reqs, rq)
+		rp := ss.final
+		if i < len(ss.script) {
+			rp = ss.script[i]
+		}
+		op := ss.op
+		ss.mu.Unlock()
+		if rp.Kind == "reset" {
+			if hj, ok := w.(http.Hijacker); ok {
+				if conn, _, err := hj.Hijack(); err == nil {
+					conn.Close()
+					return
+				}
+			}
+			panic(http.ErrAbortHandler)
+		}
+		if rp.ETag != "" {
+			w.Header().Set("ETag", c20unhx(rp.ETag))
+		}
+		if rp.Rev != nil {
+			w.Header().Set("Pulumi-ESC-Revision", strconv.Itoa(*rp.Rev))
+		}
+		b := c20Body(op, rp)
+		w.Header().Set("Content-Length", strconv.Itoa(len(b)))
+		w.WriteHeader(rp.Status)
+		io.WriteString(w, b)
+	}))
+	ss.host = strings.TrimPrefix(ss.srv.URL, "http://")
+	ss.cl = client.New("verif-agent", ss.srv.URL, token, false)
+	return ss
+}
+
+// c20RunItem runs a single call ({"op":...}) or a sequence ({"seq":[call,...]}, all on one client instance whose
+// token is that of the first call).
+func c20RunItem(c map[string]any) map[string]any {
+	seq, isSeq := c["seq"].([]any)
+	if !isSeq {
+		ss := c20NewSession(c20unhx(str(c, "token")))
+		defer ss.srv.Close()
+		return c20Call(ss, c)
+	}
+	out := make([]map[string]any, len(seq))
+	var ss *c20Session
+	for i, e := range seq {
+		cm, _ := e.(map[string]any)
+		if ss == nil {
+			ss = c20NewSession(c20unhx(str(cm, "token")))
+			defer ss.srv.Close()
+		}
+		out[i] = c20Call(ss, cm)
+	}
+	return map[string]any{"seq": out}
+}
+
+func c20Call(ss *c20Session, c map[string]any) (res map[string]any) {
 	defer func() {
 		if r := recover(); r != nil {
 			res = map[string]any{"panic": fmt.Sprint(r)}
@@ -205,7 +289,6 @@ func c20Call(c map[string]any) (res map[string]any) {
 		}
 		return 0
 	}
-	token := c20unhx(str(c, "token"))
 	var script []c20Reply
 	var final c20Reply
 	js, _ := json.Marshal(c["script"])
@@ -213,50 +296,11 @@ func c20Call(c map[string]any) (res map[string]any) {
 	js, _ = json.Marshal(c["final"])
 	_ = json.Unmarshal(js, &final)
 
-	var mu sync.Mutex
-	var reqs []c20Req
-	var idx int32 = -1
-	srv := httptest.NewServer(http.HandlerFunc(func(w http.ResponseWriter, r *http.Request) {
-		i := int(atomic.AddInt32(&idx, 1))
-		body, _ := io.ReadAll(r.Body)
-		rq := c20Req{M: r.Method, T: c20hx(r.RequestURI), Auth: c20hx(r.Header.Get("Authorization")),
-			ETag: c20hx(r.Header.Get("ETag")), IfM: c20hx(r.Header.Get("If-Match")), BF: [][]string{}}
-		var v any
-		if json.Unmarshal(body, &v) == nil {
-			c20Flatten("", v, &rq.BF)
-			sort.Slice(rq.BF, func(a, b int) bool { return rq.BF[a][0] < rq.BF[b][0] })
-		}
-		mu.Lock()
-		reqs = append(reqs, rq)
-		mu.Unlock()
-		rp := final
-		if i < len(script) {
-			rp = script[i]
-		}
-		if rp.Kind == "reset" {
-			if hj, ok := w.(http.Hijacker); ok {
-				if conn, _, err := hj.Hijack(); err == nil {
-					conn.Close()
-					return
-				}
-			}
-			panic(http.ErrAbortHandler)
-		}
-		if rp.ETag != "" {
-			w.Header().Set("ETag", c20unhx(rp.ETag))
-		}
-		if rp.Rev != nil {
-			w.Header().Set("Pulumi-ESC-Revision", strconv.Itoa(*rp.Rev))
-		}
-		b := c20Body(op, rp)
-		w.Header().Set("Content-Length", strconv.Itoa(len(b)))
-		w.WriteHeader(rp.Status)
-		io.WriteString(w, b)
-	}))
-	defer srv.Close()
-	host := strings.TrimPrefix(srv.URL, "http://")
-
-	cl := client.New("verif-agent", srv.URL, token, false)
+	ss.mu.Lock()
+	ss.op, ss.script, ss.final, ss.reqs, ss.idx = op, script, final, nil, 0
+	ss.mu.Unlock()
+	srv, cl, host := ss.srv, ss.cl, ss.host
+	attBefore := c20RT.count(host)
 	ctx := context.Background()
 	yaml := []byte(`{"values":{"a":1}}`)
 
@@ -277,7 +321,7 @@ func c20Call(c map[string]any) (res map[string]any) {
 	case "GetRevisionNumber":
 		var r int
 		r, err = cl.GetRevisionNumber(ctx, S(0), S(1), S(2), S(3))
-		if c20RT.count(host) == 0 {
+		if c20RT.count(host) == attBefore {
 			// answered locally (the version is a revision number): project the number
 			vals = []string{strconv.Itoa(r)}
 		}
@@ -387,13 +431,13 @@ func c20Call(c map[string]any) (res map[string]any) {
 		}
 		r = map[string]any{"k": "ok", "v": hv}
 	}
-	mu.Lock()
-	out := reqs
+	ss.mu.Lock()
+	out := ss.reqs
 	if out == nil {
 		out = []c20Req{}
 	}
-	mu.Unlock()
-	return map[string]any{"reqs": out, "att": c20RT.count(host), "res": r}
+	ss.mu.Unlock()
+	return map[string]any{"reqs": out, "att": c20RT.count(host) - attBefore, "res": r}
 }
 
 func c20ErrClass(err error) map[string]any {
@@ -435,7 +479,7 @@ func c20(c map[string]any) map[string]any {
 		wg.Add(1)
 		go func(i int, cm map[string]any) {
 			defer wg.Done()
-			out[i] = c20Call(cm)
+			out[i] = c20RunItem(cm)
 		}(i, cm)
 	}
 	wg.Wait()
